@@ -18,6 +18,12 @@ QuantizedNumPyArray is evaluated on the full ``arange`` of its dtype.
 Reader modes: every clause below is evaluated twice per site -- ``pod=False`` and ``pod=True`` (``decode(raw, ctx, pod)``
 and ``BufferReader(endian, data, pod)``).  A pod failure identical in (clause, raw, duration) to a non-pod failure of the same
 instance is one root cause and stays at the base site; pod-specific failures are reported under ``<site>:pod``.
+Wrapper layer: every ``EncodedTupleCoord`` instance AND every Adapter layered over one (``PackedQuat(Vector3U16(-1,1))`` of the
+animation key-frames / puppetry, ``PackedQuat(Vector4U16/U8)`` of the object updates) is swept through the wrapper's own
+decode/encode (wire path) with raw TUPLES: (r,..,r), (r,mid,..), (max,r,min,..), (mid-1,..,r), (r,max+min-r,mid,..) for every r of
+the 16-bit domain, and every tuple over a 16-point boundary alphabet for 8-bit components; site e.g.
+``PackedQuat[Vector3U16[QuantizedFloat(U16,-1.0,1.0,zero_median=True)]]``.  Quick runs two of the five 16-bit patterns on plain
+vectors (independent element codecs) and all five on adapters; thorough runs all everywhere, in both byte orders.
 Vector wrappers (every ``EncodedTupleCoord`` instance found by the same walk: Vector3U16(..), Vector4U8(..),
 FixedPointVector3U16(..), ... as used by the ObjectUpdate HALF/LOW, ImprovedTerse and animation templates) are swept through
 the wire path with each raw value in all components, in both modes (pod reads give tuples); site
@@ -111,7 +117,16 @@ def _is_prim(v) -> bool:
 
 
 def _is_target(o) -> bool:
-    return isinstance(o, (se.QuantizedFloatBase, se.FixedPoint, se.QuantizedNumPyArray, se.EncodedTupleCoord))
+    return isinstance(o, (se.QuantizedFloatBase, se.FixedPoint, se.QuantizedNumPyArray, se.EncodedTupleCoord)) or _tuple_child(o) is not None
+
+
+def _tuple_child(o):
+    """For an Adapter layered over a vector of quantisers (PackedQuat(Vector3U16(..)), ...): that vector spec, found by type
+    among the adapter's own members (no attribute name involved); None for everything else."""
+    if not isinstance(o, se.Adapter) or isinstance(o, (se.QuantizedFloatBase, se.QuantizedNumPyArray)):
+        return None
+    hits = [v for _, v in introspect.members(o) if isinstance(v, se.EncodedTupleCoord)]
+    return hits[0] if len(hits) == 1 else None
 
 
 def _fmt_of(prim) -> Optional[str]:
@@ -250,6 +265,9 @@ def params(o) -> dict:
         p.update(kind="qnp", dtype=None if dt is None else np.dtype(dt), elems=elems or 12,
                  lower=None if lower is None else float(lower), upper=None if upper is None else float(upper),
                  step=None if step is None else float(step))
+    elif _tuple_child(o) is not None:  # adapter over a vector of quantisers
+        inner = _tuple_child(o)
+        p.update(kind="tuple", elems=params(inner)["elems"], inner=inner, derived=[])
     else:  # EncodedTupleCoord
         elems = introspect.resolve(o, ("_elem_specs",),
                                    lambda v: isinstance(v, (tuple, list)) and len(v) > 0 and all(_is_target(e) for e in v),
@@ -291,9 +309,9 @@ def discover() -> List[Inst]:
     roots += objwalk.module_roots(templates, llanim, mesh)
     found = objwalk.walk(roots, _is_target)
     by_ident: Dict[tuple, Inst] = {}
-    wrappers = [(path, o) for path, o in found if isinstance(o, se.EncodedTupleCoord)]
+    wrappers = [(path, o) for path, o in found if isinstance(o, se.EncodedTupleCoord) or _tuple_child(o) is not None]
     for path, o in found:
-        if isinstance(o, se.EncodedTupleCoord):
+        if isinstance(o, se.EncodedTupleCoord) or _tuple_child(o) is not None:
             continue
         kind, ident, site = describe(o)
         inst = by_ident.get(ident)
@@ -324,12 +342,14 @@ def discover() -> List[Inst]:
         if not elems or not all(_is_target(e) and not isinstance(e, se.EncodedTupleCoord) for e in elems):
             continue
         eids = tuple(describe(e)[1] for e in elems)
-        ident = ("tuple", type(o).__name__, eids)
+        inner_spec = params(o).get("inner")
+        cls_name = type(o).__name__ if inner_spec is None else f"{type(o).__name__}[{type(inner_spec).__name__}"
+        ident = ("tuple", cls_name, eids)
         inst = by_w.get(ident)
         if inst is None:
             names = [site_of.get(e, describe(el)[2]) for e, el in zip(eids, elems)]
             inner = names[0] if len(set(names)) == 1 else " | ".join(names)
-            inst = by_w[ident] = Inst("tuple", o, ident, f"{type(o).__name__}[{inner}]")
+            inst = by_w[ident] = Inst("tuple", o, ident, f"{cls_name}[{inner}]" + ("]" if inner_spec is not None else ""))
         inst.n += 1
         if len(inst.paths) < 2:
             inst.paths.append(path)
@@ -659,7 +679,7 @@ class ModePart:
         self.failed: set = set()
 
     def violation(self, clause, site, witness, detail=""):
-        key = (clause, witness.get("raw"), witness.get("duration"))
+        key = (clause, witness.get("raw"), witness.get("duration"), witness.get("pattern"))
         self.failed.add(key)
         if self.pod:
             if key in self.skip:
@@ -685,59 +705,113 @@ def _elem_fmt(e) -> Optional[str]:
     return params(e).get("fmt")
 
 
-def eval_tuple(part, inst: Inst, pod: bool = False, endians=("<",)):
-    """Wire path through a vector wrapper: every raw value placed in all components, read (tuple in pod mode, coord object
-    otherwise) and written back.  A failure that the offending element shows on its own in the same mode is the element's."""
+PATTERNS_16 = ("all", "first", "max-r-min", "last", "anti")
+PATTERNS_8 = ("all", "grid")
+
+
+def _grid_alphabet(lo: int, hi: int) -> List[int]:
+    mid = (lo + hi + 1) // 2
+    q = (hi - lo + 1) // 4
+    pts = [lo, lo + 1, lo + 2, lo + q - 1, lo + q, mid - 2, mid - 1, mid, mid + 1, mid + 2, hi - q, hi - q + 1, hi - 2, hi - 1, hi, lo + (hi - lo) // 3]
+    return sorted(set(pts))
+
+
+def raw_tuples(pattern: str, n: int, lo: int, hi: int):
+    """Yield (key raw, tuple of component raws) for one pattern; r runs over the whole wire domain."""
+    mid = (lo + hi + 1) // 2
+    if pattern == "grid":
+        import itertools
+        for t in itertools.product(_grid_alphabet(lo, hi), repeat=n):
+            yield t[0], t
+        return
+    for r in range(lo, hi + 1):
+        if pattern == "all":
+            t = (r,) * n
+        elif pattern == "first":
+            t = (r,) + (mid,) * (n - 1)
+        elif pattern == "max-r-min":
+            t = ((hi, r) + (lo,) * (n - 2))[:n] if n >= 2 else (r,)
+        elif pattern == "last":
+            t = (mid - 1,) * (n - 1) + (r,)
+        else:  # anti
+            t = ((r, hi + lo - r) + (mid,) * (n - 2))[:n] if n >= 2 else (r,)
+        yield r, t
+
+
+def tuple_patterns(inst: Inst, thorough: bool = True) -> tuple:
+    """All patterns in the thorough tier and for adapters layered over a vector (PackedQuat: cross-component arithmetic is
+    possible there); plain vectors of independent element codecs get the two cheapest 16-bit patterns in the quick tier."""
+    fmt = _elem_fmt(params(inst.obj)["elems"][0])
+    if struct.calcsize(fmt) == 1:
+        return PATTERNS_8
+    if thorough or params(inst.obj).get("inner") is not None:
+        return PATTERNS_16
+    return ("all", "max-r-min")
+
+
+def _wire_roundtrip_ok(spec, endian: str, data: bytes, pod: bool) -> bool:
+    try:
+        v = se.BufferReader(endian, data, pod).read(spec)
+        w = se.BufferWriter(endian)
+        w.write(spec, v)
+        return bytes(w.buffer) == data
+    except Exception:
+        return False
+
+
+def eval_tuple(part, inst: Inst, pod: bool = False, endians=("<",), patterns: Optional[tuple] = None):
+    """Wire path through a vector wrapper (Vector3U16(..), PackedQuat(Vector3U16(..)), ...), i.e. through the wrapper's own
+    decode/encode: raw tuples of several shapes (same raw everywhere; one component swept with the others at the middle / at
+    the ends; anti-diagonal; 8-bit: every tuple over a 16-point boundary alphabet) are read (tuple in pod mode, coord /
+    quaternion object otherwise) and written back.  A failure that an inner layer (an element, or the vector under an
+    adapter) shows on its own in the same mode is that layer's."""
     o = inst.obj
     site = inst.site
     elems = params(o)["elems"]
-    fmts = [_elem_fmt(e) for e in elems]
-    fmt = fmts[0]
+    inner = params(o).get("inner")
+    fmt = _elem_fmt(elems[0])
     wname, lo_raw, hi_raw = WIRE[fmt]
-    n = hi_raw - lo_raw + 1
-    first = last = None
-    bad = 0
-    for endian in endians:
-        st = struct.Struct(endian + fmt)
-        part.count("evaluations", n)
-        part.count("wrapper_evaluations", n)
-        for raw in range(lo_raw, hi_raw + 1):
-            one = st.pack(raw)
-            data = one * len(elems)
-            w = {"site": site, "raw": raw, "path": "wire" + endian}
-            detail = None
-            try:
-                val = se.BufferReader(endian, data, pod).read(o)
-                wr = se.BufferWriter(endian)
-                wr.write(o, val)
-                out = bytes(wr.buffer)
-                if out != data:
-                    detail = f"wire bytes {data.hex()} read as {val!r} are written back as {out.hex()}"
-                if raw == lo_raw:
-                    first = tuple(val)
-                last = tuple(val)
-            except Exception as e:
-                detail = f"wire bytes {data.hex()} -> read/write raised {e!r}"
-            if detail is None:
-                continue
-            bad += 1
-            own_fault = False
-            for e in elems:  # does an element fail alone, same mode?
+    ncomp = len(elems)
+    for pattern in (patterns or tuple_patterns(inst, True)):
+        first = last = None
+        bad = 0
+        for endian in endians:
+            st = struct.Struct(endian + fmt)
+            n = 0
+            for raw, t in raw_tuples(pattern, ncomp, lo_raw, hi_raw):
+                n += 1
+                parts = [st.pack(x) for x in t]
+                data = b"".join(parts)
+                detail = None
                 try:
-                    v1 = se.BufferReader(endian, one, pod).read(e)
-                    w1 = se.BufferWriter(endian)
-                    w1.write(e, v1)
-                    own_fault = own_fault or bytes(w1.buffer) != one
-                except Exception:
-                    own_fault = True
-            if own_fault:
-                part.count("wrapper_failures_attributed_to_element")
-            else:
-                part.violation("inverse", site, w, detail)
-    tag = (site, None, pod)
-    part.mark_nontrivial((tag, "end", lo_raw))
-    part.mark_nontrivial((tag, "end", hi_raw))
-    part.outcome((tag, repr(first), repr(last), bad))
+                    val = se.BufferReader(endian, data, pod).read(o)
+                    wr = se.BufferWriter(endian)
+                    wr.write(o, val)
+                    out = bytes(wr.buffer)
+                    if out != data:
+                        back = [st.unpack(out[i:i + st.size])[0] for i in range(0, len(out) - st.size + 1, st.size)] if len(out) == len(data) else out.hex()
+                        detail = f"raw components {list(t)} read as {val!r} are written back as {back}"
+                    if first is None:
+                        first = tuple(val)
+                    last = tuple(val)
+                except Exception as e:
+                    detail = f"raw components {list(t)} -> read/write raised {e!r}"
+                if detail is None:
+                    continue
+                bad += 1
+                inner_fault = any(not _wire_roundtrip_ok(e, endian, pb, pod) for e, pb in zip(elems, parts))
+                if not inner_fault and inner is not None:
+                    inner_fault = not _wire_roundtrip_ok(inner, endian, data, pod)
+                if inner_fault:
+                    part.count("wrapper_failures_attributed_to_inner_layer")
+                else:
+                    part.violation("inverse", site, {"site": site, "raw": raw, "raws": list(t), "pattern": pattern, "path": "wire" + endian}, detail)
+            part.count("evaluations", n)
+            part.count("wrapper_evaluations", n)
+        tag = (site, pattern, pod)
+        part.mark_nontrivial((tag, "end", lo_raw))
+        part.mark_nontrivial((tag, "end", hi_raw))
+        part.outcome((tag, repr(first), repr(last), bad))
 
 
 class WPart(Part):
@@ -751,7 +825,7 @@ class WPart(Part):
     def violation(self, clause, site, witness, detail=""):
         key = (clause, site)
         self.count(f"failing:{clause}@{site}")  # total failing evaluations (Run.merge would drop witnesses if counts rode on "n")
-        wk = (witness.get("raw"), witness.get("duration")) if isinstance(witness, dict) else None
+        wk = (witness.get("raw"), witness.get("duration"), witness.get("pattern")) if isinstance(witness, dict) else None
         lst = self.multi.setdefault(key, [])
         if len(lst) < 3 and all(e["_wk"] != wk for e in lst):
             lst.append({"clause": clause, "site": site, "witness": witness, "detail": str(detail)[:2000], "n": 1, "_wk": wk})
@@ -809,7 +883,7 @@ def _eval_both_modes(part, inst: Inst, duration, wire: bool):
         elif inst.kind == "fixed":
             eval_fixed(mp, inst, pod)
         elif inst.kind == "tuple":
-            eval_tuple(mp, inst, pod, ("<", ">") if _THOROUGH else ("<",))
+            eval_tuple(mp, inst, pod, ("<", ">") if _THOROUGH else ("<",), (duration,) if isinstance(duration, str) else None)
         else:
             eval_numpy(mp, inst, pod)
         skip = mp.failed
@@ -855,6 +929,9 @@ def run(run: Run):
             n_end_durs = len(ends)
             for k in range(0, len(ends), 250):
                 units.append((idx, ("ends", tuple(ends[k:k + 250])), False))
+        elif inst.kind == "tuple":
+            for pat in tuple_patterns(inst, _THOROUGH):
+                units.append((idx, pat, True))
         else:
             units.append((idx, None, True))
     # longest units first
@@ -868,7 +945,9 @@ def run(run: Run):
     run.rule = (f"object walk from SUBFIELD_SERIALIZERS + templates/llanim/mesh found {sum(i.n for i in scal)} quantiser / fixed-point instances "
                 f"= {len(scal)} distinct parameterisations, and {sum(i.n for i in wrap)} vector wrappers around them = {len(wrap)} distinct; each swept "
                 "over every raw value of its wire type in BOTH reader modes (pod=False and pod=True: decode(raw, ctx, pod) -> encode, and the "
-                f"BufferReader(pod)/BufferWriter path in both byte orders; wrappers: wire path, {'both byte orders' if _THOROUGH else 'little-endian'}); "
+                f"BufferReader(pod)/BufferWriter path in both byte orders; wrappers incl. PackedQuat-style adapters over vectors: raw-tuple patterns "
+                f"(all-equal, one component swept against mid / max,min, anti-diagonal; 8-bit: all tuples over a 16-point alphabet) through the wrapper's own "
+                f"decode/encode, {'both byte orders' if _THOROUGH else 'little-endian'}); "
                 f"context-dependent ranges: all raws x {len(durs)} f32-exact durations, plus the end and middle raws x {n_end_durs} durations "
                 "(every 1/8 s to 64 s, every second to 600 s, every F32 with <= 8 mantissa bits in [2^-6, 2^9]; endpoint + inverse clauses). distinct_nontrivial = per (site, duration, mode): the two end raw "
                 "values and every raw value that decodes to +-0.0 (the zero-preserving path)")
@@ -883,7 +962,8 @@ def run(run: Run):
         "decode(raw) == end compares Python floats with ==; encode of the ends is the inverse clause at the end raw values",
         "pod mode: every clause is evaluated again with pod=True; a failure identical in (clause, raw, duration) to one of the non-pod sweep is "
         "attributed to the base site only, pod-specific failures are reported under '<site>:pod'",
-        "vector wrappers are driven with the same raw value in every component; PackedQuat / template-level containers are C09's subject",
+        "wrappers (vectors and adapters over vectors such as PackedQuat) are driven with the stated raw-tuple patterns, not the full cross product of "
+        "16-bit components; raw triples whose decoded vector is longer than 1 are in scope (any raw the wire type can hold)",
     ]
     fb_sites = {i.site: sorted(set(params(i.obj)["fallbacks"]) | {"derived:" + d for d in params(i.obj).get("derived", [])})
                 for i in _INSTS if params(i.obj)["fallbacks"] or params(i.obj).get("derived")}
